@@ -4,12 +4,12 @@
 # scratch directory, the patch applied there, the harness built against the copy with a
 # temporary -modfile, and the quick check run with a scratch verif-dir. Safe to run in parallel.
 set -u
-patch="$(readlink -f "$1")"; shift
+patch="$1"; [ "$patch" != "-" ] && patch="$(readlink -f "$1")"; shift   # "-": no patch (the committed HEAD of /repo, without uncommitted edits)
 export GOFLAGS=-mod=mod GOPROXY=off GOSUMDB=off GOTOOLCHAIN=local
 S=$(mktemp -d /tmp/mut.XXXXXX); trap 'rm -rf "$S"' EXIT
 mkdir -p $S/repo $S/verif/evidence $S/verif/replays
 git -C /repo archive HEAD | tar -x -C $S/repo
-( cd $S/repo && git init -q . 2>/dev/null; git -C $S/repo apply "$patch" ) || { echo "patch does not apply"; exit 3; }
+if [ "$patch" != "-" ]; then ( cd $S/repo && git init -q . 2>/dev/null; git -C $S/repo apply "$patch" ) || { echo "patch does not apply"; exit 3; }; fi
 cp /verif/KNOWN_FINDINGS.txt $S/verif/
 sed "s#=> /repo#=> $S/repo#" /verif/harness/go.mod > $S/go.mod; cp /verif/harness/go.sum $S/go.sum
 tier="${TIER:-quick}"
